@@ -948,6 +948,13 @@ fn case_buffered(cx: &mut Cx, cs: u64) {
         cx.rep.obs("socket_mode_changes_seen", 1);
         cx.violation("C13", "socket-left-as-configured", "socket-mode-changed", format!("[{}] after the sink was dropped: {}", label, d), jobj! {"sink" => label}, cs);
     }
+    // the application's own handle of the socket (a dup made before the hand-over) still sends once the sink is gone
+    if !udp && !kernel_eagain && !slow_server {
+        cx.rep.obs("application_handles_used_after_the_sink_was_dropped", 1);
+        if let Some(d) = probe.still_sends_unix(&unix_path) {
+            cx.violation("C13", "socket-left-as-configured", "socket-shut-down", format!("[{}] after the sink was dropped: {}", label, d), jobj! {"sink" => label}, cs);
+        }
+    }
     if let Some(t) = slow_thread.take() {
         slow_stop.store(true, Ordering::SeqCst);
         let _ = t.join();
